@@ -15,6 +15,8 @@ from ..astutil import calls_in, dotted, enclosing_stmt, func_defaults, name_stor
 from ..cfg import no_exc
 from ..report import Registry, chain, sub
 from ._helpers_rules_d import call_nodes, callee_is, kw, qualname
+from ._helpers_rob_a import transitive_owners
+from ._helpers_rob_i import nf
 
 R = Registry(
     "C36",
@@ -127,47 +129,66 @@ CS_OVERRIDES = {
 INSERT_METHODS = ("setdefault", "update", "__setitem__")
 
 
+def _is_cs(e, aliases) -> bool:
+    return (isinstance(e, ast.Attribute) and e.attr == "committed_state") or (isinstance(e, ast.Name) and e.id in aliases)
+
+
+def _cs_aliases(scope) -> Dict[str, ast.expr]:
+    """locals of one function every binding of which is `<x>.committed_state` (the dict itself under another name)."""
+    by: Dict[str, List[Optional[ast.expr]]] = {}
+    for n, v, s in name_stores(scope):
+        by.setdefault(n, []).append(v)
+    return {n: vs[0] for n, vs in by.items() if vs and all(isinstance(v, ast.Attribute) and v.attr == "committed_state" for v in vs)}
+
+
+def _sites_in(scope, pm=None):
+    """(insertions [(dict expr, key expr, stmt, node)], rebindings [(node, stmt)]) of one function / module body; the dict may be
+    named directly (`state.committed_state[k] = v`) or through a local alias (`cs = self.committed_state; cs[k] = v`)."""
+    from ..astutil import parent_map
+    pm = pm or parent_map(scope)
+    aliases = _cs_aliases(scope) if isinstance(scope, (ast.FunctionDef, ast.AsyncFunctionDef)) else {}
+    ins, reb = [], []
+    for n in walk_local(scope):
+        if isinstance(n, ast.Subscript) and isinstance(n.ctx, ast.Store) and _is_cs(n.value, aliases):
+            ins.append((aliases.get(n.value.id, n.value) if isinstance(n.value, ast.Name) else n.value, n.slice, enclosing_stmt(pm, n), n))
+        elif isinstance(n, ast.Call) and isinstance(n.func, ast.Attribute) and n.func.attr in INSERT_METHODS and _is_cs(n.func.value, aliases):
+            recv = n.func.value
+            ins.append((aliases.get(recv.id, recv) if isinstance(recv, ast.Name) else recv, n.args[0] if n.args else None, enclosing_stmt(pm, n), n))
+        elif isinstance(n, ast.Attribute) and n.attr == "committed_state" and isinstance(n.ctx, ast.Store):
+            reb.append((n, enclosing_stmt(pm, n)))
+    return ins, reb
+
+
 def _cs_sites(ctx):
     ins, reb = [], []
     for m in ctx.index.all_modules():
         if "committed_state" not in m.source:
             continue
         pm = m.parents()
-        for n in ast.walk(m.tree):
-            if isinstance(n, ast.Subscript) and isinstance(n.ctx, ast.Store) and isinstance(n.value, ast.Attribute) and n.value.attr == "committed_state":
-                ins.append((m, qualname(pm, n), n.value, n.slice, enclosing_stmt(pm, n)))
-            elif (isinstance(n, ast.Call) and isinstance(n.func, ast.Attribute) and n.func.attr in INSERT_METHODS
-                  and isinstance(n.func.value, ast.Attribute) and n.func.value.attr == "committed_state"):
-                ins.append((m, qualname(pm, n), n.func.value, n.args[0] if n.args else None, enclosing_stmt(pm, n)))
-            elif isinstance(n, ast.Attribute) and n.attr == "committed_state" and isinstance(n.ctx, ast.Store):
-                reb.append((m, qualname(pm, n), n, enclosing_stmt(pm, n)))
+        scopes = [m.tree] + [n for n in ast.walk(m.tree) if isinstance(n, (ast.FunctionDef, ast.AsyncFunctionDef, ast.Lambda, ast.ClassDef))]
+        for sc in scopes:
+            i2, r2 = _sites_in(sc, pm)
+            for cs, k, st, n in i2:
+                ins.append((m, qualname(pm, n), cs, k, st))
+            for n, st in r2:
+                reb.append((m, qualname(pm, n), n, st))
     return ins, reb
 
 
-@R.rule("C36-R1", floor=9, template="T-OWN/T-GUARD",
-        desc="committed_state gets a new entry only in the two _modified_event functions, only under `key not in "
-             "committed_state` (first change wins; sole override: the documented flag_modified flag, passed only by "
-             "flag_modified/flag_dirty); the collection original that is recorded is attr.copy(previous)")
-def r1(ctx):
-    ins, reb = _cs_sites(ctx)
-    ctx.require(len(ins) >= 2, "fewer than two insertion sites into committed_state found")
-    for m, q, cs, keyexpr, st in ins:
-        fk = f"{m.relpath}::{q}"
-        loc = f"{m.path}:{st.lineno}"
-        ctx.check(fk in CS_INSERTERS, f"{fk}:inserts-committed_state",
-                  "an entry is put into committed_state outside the two _modified_event functions: the value recorded there "
-                  "is not subject to the first-change-wins guard, so history can report a later value as the original",
-                  CS_INSERTERS.get(fk, ""), loc)
-        if fk not in CS_INSERTERS:
-            continue
-        f = ctx.func(fk)
-        g = ctx.cfg(f)
+def _guarded_insertions(ctx, f, fk, site_label):
+    """first-change-wins for every insertion statement of (the normal form of) owner function `f`: helpers the owner calls are
+    inlined, aliases of the dict / the key are resolved, so the guard may sit in the caller of an extracted helper."""
+    g = ctx.cfg(f)
+    sites, _ = _sites_in(f.node)
+    overrides = {p for (k, p) in CS_OVERRIDES if k == fk}
+    dflt = func_defaults(f.node)
+    ctx.require(all(p in dflt and isinstance(dflt[p], ast.Constant) and dflt[p].value is False for p in overrides),
+                f"{fk}: override flag(s) {sorted(overrides)} do not default to False")
+    ctx.require(sites, f"{fk}: insertion into committed_state not found after following helpers{site_label}")
+    for cs, keyexpr, st, _n in sites:
+        loc = f"{f.module.path}:{st.lineno}"
         ctx.require(keyexpr is not None, f"{fk}: insertion without a key expression")
         key_txt, cs_txt = unparse(keyexpr), unparse(cs)
-        overrides = {p for (k, p) in CS_OVERRIDES if k == fk}
-        dflt = func_defaults(f.node)
-        ctx.require(all(p in dflt and isinstance(dflt[p], ast.Constant) and dflt[p].value is False for p in overrides),
-                    f"{fk}: override flag(s) {sorted(overrides)} do not default to False")
         nodes = g.nodes_for(st)
         ctx.require(nodes, f"{fk}: insertion statement not found in the CFG")
         bad, used = [], set()
@@ -187,6 +208,33 @@ def r1(ctx):
                   "before the flush overwrites the recorded original (x: 0 -> 1 -> 2 reports deleted=[1]; a primary-key "
                   "UPDATE then looks for the wrong row)",
                   f"guarded by `{key_txt} not in {cs_txt}`" + (f" (override: {sorted(used)})" if used else ""), loc)
+    return sites
+
+
+@R.rule("C36-R1", floor=9, template="T-OWN/T-GUARD",
+        desc="committed_state gets a new entry only in the two _modified_event functions (or a private helper only they "
+             "call), only under `key not in committed_state` (first change wins; sole override: the documented "
+             "flag_modified flag, passed only by flag_modified/flag_dirty); the collection original that is recorded is "
+             "attr.copy(previous)")
+def r1(ctx):
+    ins, reb = _cs_sites(ctx)
+    ctx.require(len(ins) >= 2, "fewer than two insertion sites into committed_state found")
+    judged = set()
+    for m, q, cs, keyexpr, st in ins:
+        fk = f"{m.relpath}::{q}"
+        loc = f"{m.path}:{st.lineno}"
+        owners = [fk] if fk in CS_INSERTERS else transitive_owners(ctx.index, fk, CS_INSERTERS)
+        ctx.check(bool(owners), f"{fk}:inserts-committed_state",
+                  "an entry is put into committed_state outside the two _modified_event functions: the value recorded there "
+                  "is not subject to the first-change-wins guard, so history can report a later value as the original",
+                  CS_INSERTERS.get(fk, "") or f"private helper called only by {owners}", loc)
+        for ok_ in owners or ():
+            if ok_ in judged:
+                continue
+            judged.add(ok_)
+            _guarded_insertions(ctx, nf(ctx, ctx.func(ok_)), ok_, "" if ok_ == fk else f" (helper {fk})")
+    for fk in CS_INSERTERS:
+        ctx.require(fk in judged, f"{fk} no longer inserts into committed_state")
     for m, q, node, st in reb:
         fk = f"{m.relpath}::{q}"
         ctx.check(fk in CS_REBINDERS, f"{fk}:rebinds-committed_state", "committed_state is replaced wholesale outside __init__/__setstate__",
@@ -207,11 +255,11 @@ def r1(ctx):
                   f"`{flag}=True` (bypasses first-change-wins) is passed by {sorted(set(callers) - allowed)}, not only by the documented flag_modified()/flag_dirty()",
                   f"passed only by {sorted(set(callers))}: {reason}")
     # the collection original is a copy
-    f = ctx.func(f"{IS}._modified_event")
+    f = nf(ctx, ctx.func(f"{IS}._modified_event"))
     g = ctx.cfg(f)
     ctx.require(len(f.params) >= 5, "_modified_event(self, dict_, attr, previous, collection, ...) signature not understood")
     p_attr, p_prev, p_coll = f.params[2], f.params[3], f.params[4]
-    stores = [(cs, k, st) for (m, q, cs, k, st) in ins if f"{m.relpath}::{q}" == f.key and isinstance(st, ast.Assign)]
+    stores = [(cs, k, st) for (cs, k, st, _n) in _sites_in(f.node)[0] if isinstance(st, ast.Assign)]
     ctx.require(len(stores) == 1, "_modified_event: expected exactly one `committed_state[key] = value` statement")
     st = stores[0][2]
     ctx.require(isinstance(st.value, ast.Name), "_modified_event: the recorded value is not a plain name")
@@ -431,6 +479,8 @@ class _Abort(Exception):
 
 
 ABSENT = "ABSENT"
+CS_TOKEN = ("committed_state",)
+KEY_TOKEN = ("attribute.key",)
 SENTINEL_TOKENS = {"NOHIST", "NO_VALUE", "PNR"}
 
 
@@ -479,7 +529,24 @@ class _HistEval:
             d = dotted(e) or ""
             if d.rsplit(".", 1)[-1] in self.sent and d.split(".")[0] not in env:
                 return self.sent[d.rsplit(".", 1)[-1]]
+            # `<state>.committed_state` / `<attribute>.key` of the opaque parameters (also reached through a local alias)
+            try:
+                base = self.ev(e.value, env)
+            except _Abort:
+                base = None
+            if isinstance(base, tuple) and base[0] == "opaque":
+                if e.attr == "committed_state":
+                    return CS_TOKEN
+                if e.attr == "key":
+                    return KEY_TOKEN
             raise _Abort(f"attribute `{unparse(e)}`")
+        if isinstance(e, ast.Subscript):
+            # committed_state[attribute.key]: only meaningful where the entry exists
+            if self.ev(e.value, env) == CS_TOKEN and self.ev(e.slice, env) == KEY_TOKEN:
+                if self.committed == ABSENT:
+                    raise _Abort(f"`{unparse(e)}` is evaluated although the key is absent (KeyError)")
+                return self.committed
+            raise _Abort(f"subscript `{unparse(e)[:60]}`")
         if isinstance(e, (ast.Tuple, ast.List)):
             vals = [self.ev(x, env) for x in e.elts]
             if not all(isinstance(v, str) for v in vals):
@@ -510,6 +577,8 @@ class _HistEval:
             if isinstance(op, (ast.In, ast.NotIn)):
                 if isinstance(a, tuple) and a[0] == "id" and isinstance(b, tuple) and b[0] == "idset":
                     r = a[1] in b[1]
+                elif a == KEY_TOKEN and b == CS_TOKEN:
+                    r = self.committed != ABSENT
                 elif isinstance(a, str) and isinstance(b, tuple) and b[0] == "list":
                     r = a in b[1]
                 else:
@@ -525,10 +594,17 @@ class _HistEval:
                 v = self.ev(e.args[0], env)
                 if isinstance(v, str):
                     return ("id", v)
-            if isinstance(e.func, ast.Attribute) and e.func.attr == "get" and isinstance(e.func.value, ast.Attribute) and e.func.value.attr == "committed_state" and len(e.args) == 2:
-                if not unparse(e.args[0]).endswith(".key"):
-                    raise _Abort(f"committed_state lookup by `{unparse(e.args[0])}`")
-                return self.ev(e.args[1], env) if self.committed == ABSENT else self.committed
+            if isinstance(e.func, ast.Attribute) and e.func.attr == "get" and len(e.args) in (1, 2) and not e.keywords:
+                try:
+                    recv = self.ev(e.func.value, env)
+                except _Abort:
+                    recv = None
+                if recv == CS_TOKEN:
+                    if self.ev(e.args[0], env) != KEY_TOKEN:
+                        raise _Abort(f"committed_state lookup by `{unparse(e.args[0])}`")
+                    if self.committed != ABSENT:
+                        return self.committed
+                    return self.ev(e.args[1], env) if len(e.args) == 2 else "NONE"
             if isinstance(e.func, ast.Attribute) and e.func.attr == "is_equal" and len(e.args) == 2:
                 a, b = self.ev(e.args[0], env), self.ev(e.args[1], env)
                 if isinstance(a, str) and isinstance(b, str):
